@@ -55,9 +55,11 @@ func raw(v any) json.RawMessage {
 	return b
 }
 
-func (r *Recorder) Count(key string, nontrivial bool) { r.emit(Op{Op: "count", Key: key, NT: nontrivial}) }
-func (r *Recorder) AddInt(key string, n int)          { r.emit(Op{Op: "addint", Key: key, N: n}) }
-func (r *Recorder) Skipped()                          { r.emit(Op{Op: "skipped"}) }
+func (r *Recorder) Count(key string, nontrivial bool) {
+	r.emit(Op{Op: "count", Key: key, NT: nontrivial})
+}
+func (r *Recorder) AddInt(key string, n int) { r.emit(Op{Op: "addint", Key: key, N: n}) }
+func (r *Recorder) Skipped()                 { r.emit(Op{Op: "skipped"}) }
 func (r *Recorder) Violate(what string, witness any) {
 	r.emit(Op{Op: "violate", What: what, Witness: raw(witness)})
 }
@@ -136,13 +138,13 @@ type worker struct {
 	stderr *strings.Builder
 }
 
-func startWorker(args []string) (*worker, error) {
+func startWorker(args []string, env []string) (*worker, error) {
 	self, err := os.Executable()
 	if err != nil {
 		return nil, err
 	}
 	cmd := exec.Command(self, append([]string{"worker"}, args...)...)
-	cmd.Env = append(os.Environ(), "QEEP_VERIF_TRACE=") // the trace-file sink belongs to dedicated subprocesses only
+	cmd.Env = append(append(os.Environ(), "QEEP_VERIF_TRACE="), env...) // the trace-file sink belongs to dedicated subprocesses only
 	in, err := cmd.StdinPipe()
 	if err != nil {
 		return nil, err
@@ -265,7 +267,7 @@ func (c *Ctx) Farm(args []string, jobs <-chan []byte, limit time.Duration, descr
 				for attempt := 0; ; attempt++ {
 					if w == nil {
 						var err error
-						if w, err = startWorker(args); err != nil {
+						if w, err = startWorker(args, append([]string{"QV_PROP=" + c.Prop}, c.WorkerEnv...)); err != nil {
 							fail(Brokenf("cannot start a worker process: %v", err))
 							break
 						}
